@@ -23,21 +23,25 @@ class KNXIPHeader:
 
     def from_knx(self, data: bytes) -> int:
         """Parse/deserialize from KNX/IP raw data."""
-        if len(data) < KNXIPHeader.HEADERLENGTH:
-            raise IncompleteKNXIPFrame("wrong connection header length")
-        if data[0] != KNXIPHeader.HEADERLENGTH:
+        if data and data[0] != KNXIPHeader.HEADERLENGTH:
             raise CouldNotParseKNXIP("wrong connection header length")
-        # set immediately, as we need it for tcp stream parsing before raising exception
-        self.total_length = data[4] * 256 + data[5]
-        if data[1] != KNXIPHeader.PROTOCOLVERSION:
+        if len(data) >= KNXIPHeader.HEADERLENGTH:
+            # set immediately, as we need it for tcp stream parsing before raising exception
+            self.total_length = data[4] * 256 + data[5]
+        if len(data) >= 2 and data[1] != KNXIPHeader.PROTOCOLVERSION:
             raise CouldNotParseKNXIP("wrong protocol version")
-
-        try:
-            self.service_type_ident = KNXIPServiceType(data[2] * 256 + data[3])
-        except ValueError:
-            raise CouldNotParseKNXIP(
-                f"KNXIPServiceType unknown: 0x{data[2:4].hex()}"
-            ) from None
+        if len(data) >= 4:
+            try:
+                self.service_type_ident = KNXIPServiceType(data[2] * 256 + data[3])
+            except ValueError:
+                raise CouldNotParseKNXIP(
+                    f"KNXIPServiceType unknown: 0x{data[2:4].hex()}"
+                ) from None
+        if len(data) < KNXIPHeader.HEADERLENGTH:
+            # only a prefix that can still become a valid header is incomplete
+            raise IncompleteKNXIPFrame("wrong connection header length")
+        if self.total_length < KNXIPHeader.HEADERLENGTH:
+            raise CouldNotParseKNXIP("total length smaller than header length")
         return KNXIPHeader.HEADERLENGTH
 
     def set_length(self, body: KNXIPBody) -> None:
